@@ -100,7 +100,7 @@ func joinKFirstError(sp *JoinKSpec) (idx int) {
 func c03kGen(rng *rand.Rand, tier string) []core.Spec {
 	n := 500
 	if tier == "thorough" {
-		n = 20000
+		n = 5000
 	}
 	var out []core.Spec
 	for i := 0; i < n; i++ {
